@@ -993,6 +993,10 @@ def gen_seq_case(rng, bootstrap, panel=False):
         while len(ids) < N:
             ids.extend([float(pool[len(ids)])] * min(rng.choice([1, 2, 2, 3]), N - len(ids)))
         case['seq_ids'] = ids
+        # the rows are permuted AFTER Database.panel() and after a first evaluation (individuals no longer contiguous)
+        perm = list(range(N))
+        rng.shuffle(perm)
+        case['post_perm'] = perm
         case['weight'] = None  # simulate refuses a weight formula without trajectory on panel data
     return case
 
@@ -1036,6 +1040,12 @@ def run_sequence(case):
         sim('simulate-first')
         like('likelihood-after-simulate')
         sim('simulate-after-likelihood')
+        if case.get('post_perm'):
+            # database.data = database.data.sample(frac=1): the order of the rows must not matter
+            d.data = d.data.iloc[list(case['post_perm'])]
+            like('after-permutation:likelihood')
+            sim('after-permutation:simulate')
+            like('after-permutation:likelihood-after-simulate')
         B.estimate(run_bootstrap=bool(case['bootstrap']))
         like(pre + 'likelihood')
         sim(pre + 'simulate')
